@@ -438,12 +438,19 @@ impl GenCfg {
                 }
             }
         }
+        let max_attrs = *rng.pick(&[0usize, 1, 2, 3, 5, 5, 14]);
+        if max_attrs > 8 {
+            // wide attribute lists (thresholds such as "more than 8 attributes" hide behind them)
+            for i in 0..16 {
+                attr_names.push(format!("w{i}"));
+            }
+        }
         GenCfg {
             elem_names,
             attr_names,
             max_depth: *rng.pick(&[2, 3, 3, 4, 5, 8]),
             max_kids: *rng.pick(&[1, 2, 3, 3, 4, 6]),
-            max_attrs: *rng.pick(&[0, 1, 2, 3, 5]),
+            max_attrs,
             max_elems: *rng.pick(&[6, 12, 25, 60]),
             no_prefix_twins: false,
             p_absent: *rng.pick(&[0, 10, 30, 30, 60]),
